@@ -118,6 +118,7 @@ type State struct {
 	dead    bool
 	touched map[string]bool // heaps written since entry (for frame checking)
 	defFact map[string]bool // keys of definitional-instance facts
+	guardedRefs map[string]string // map reference (key) -> mutex key it was loaded under
 	witnessOf map[string]*Term // witnesses of the most recent call of a callee on this path: "Set.f"
 }
 
@@ -149,6 +150,12 @@ func (s *State) clone() *State {
 	}
 	for k, v := range s.witnessOf {
 		n.witnessOf[k] = v
+	}
+	if s.guardedRefs != nil {
+		n.guardedRefs = make(map[string]string, len(s.guardedRefs))
+		for k, v := range s.guardedRefs {
+			n.guardedRefs[k] = v
+		}
 	}
 	for k, v := range s.cellv {
 		n.cellv[k] = v
